@@ -1,0 +1,13 @@
+//go:build verif
+
+// Contracts for package bifrost_http, checked by /verif (bfvc). Comment-only.
+package bifrost_http
+
+//@ ifacegetters LookupHTTPHandler
+
+// URLs are compared by their string form.
+//@ func (*lookupHTTPHandler).IsEquivalent
+//@   ensures ret ==> implements(other, LookupHTTPHandler)
+//@   ensures ret ==> d.LookupHTTPHandlerMethod() == as(other, LookupHTTPHandler).LookupHTTPHandlerMethod()
+//@   ensures ret ==> urlString(d.LookupHTTPHandlerURL()) == urlString(as(other, LookupHTTPHandler).LookupHTTPHandlerURL())
+//@   ensures ret ==> d.LookupHTTPHandlerClientID() == as(other, LookupHTTPHandler).LookupHTTPHandlerClientID()
